@@ -20,6 +20,18 @@ checks = {
  "C07": dict(level="exploration", ref="DESIGN.md 3 C07",
    text="Drawn Start/Stop/cancel sequences (sequential against a reference state machine, and concurrent from 2-3 goroutines) under the seeded scheduler; blocked-forever detection at the horizon names the call and the lock, Stop's duration is measured on the simulated clock, and a leak oracle lists every goroutine of the system still alive after Stop.",
    technique="deterministic simulation: seeded scheduler, reference state machine, blocked-forever and goroutine-leak oracles"),
+ "C04": dict(level="exploration", ref="DESIGN.md 3 C04",
+   text="Seeded search over reply / timeout / asker-death / Close / PipeTo orders on the simulated clock: timeouts are compared with the exact simulated deadline, every waiter of every future must return the same outcome at the same instant, leaked registrations are read through an accessor at quiescence, and the same workload runs in a -race build in which the scheduler is invisible to the race detector, so unsynchronised accesses in the future/ask path are reported whenever a schedule executes both.",
+   technique="deterministic simulation: seeded scheduler + fake clock, outcome oracle per future, -race variant as data-race oracle"),
+ "C06": dict(level="exploration", ref="DESIGN.md 3 C06",
+   text="Seeded search over tree shapes, kill targets, repeated/concurrent/poison kills, kills racing spawns and watch registrations; event-order and exactly-once oracles over the complete recorded history at quiescence, path release, stale subscriptions and jobs checked after termination.",
+   technique="deterministic simulation: seeded scheduler + fake clock, event-order and exactly-once oracles over the recorded history"),
+ "C19": dict(level="exploration", ref="DESIGN.md 3 C19",
+   text="Concurrent Subscribe/Unsubscribe/UnsubscribeAll/Publish histories with subscriber kills and restarts, stamped with the simulator's global event sequence number and checked for linearizability against a set model with porcupine; plus duplicate, order, post-termination and stale-table-entry oracles.",
+   technique="deterministic simulation: seeded scheduler, recorded history checked with porcupine against a sequential model"),
+ "C20": dict(level="exploration", ref="DESIGN.md 3 C20",
+   text="go-quartz runs for real on the simulated clock; Once/Loop/Cron jobs with drawn periods and references, disruptions (Cancel, Clear, owner kill, owner restart) placed strictly between and exactly at firing instants; the set of delivery instants of every job is compared with the exact expected instants, nothing may fire after the end of a job.",
+   technique="deterministic simulation: fake clock + seeded scheduler, exact firing-instant oracle"),
  "C05": dict(level="exploration", ref="DESIGN.md 3 C05",
    text="Seeded search over whole-system histories (spawns, tells, failures at OnLaunch / user message / child's OnKilled / scheduled message, drawn supervision decisions, kills, Stop) on a real ActorSystem under the simulated scheduler and clock; every actor's complete behaviour-visible trace is checked per incarnation against the automaton OnLaunch any* [OnKill] OnKilled(self).",
    technique="deterministic simulation: seeded scheduler + fake clock, failure injection at lifecycle sites, per-actor trace automaton"),
